@@ -12,3 +12,4 @@ from . import build_assembly  # noqa: F401
 from . import build_utils  # noqa: F401
 from . import parser  # noqa: F401
 from . import fasta_index  # noqa: F401
+from . import assembly_scan  # noqa: F401
